@@ -268,6 +268,7 @@ spifconf_put_var(spif_charptr_t var, spif_charptr_t val)
         n = strcmp((char *) var, (char *) v->var);
         D_CONF(("Comparing at %10p:  \"%s\" -> \"%s\", n == %d\n", v, v->var, v->value, n));
         if (n == 0) {
+            FREE(var);
             FREE(v->value);
             if (val) {
                 v->value = val;
